@@ -1090,7 +1090,7 @@ pub fn run(ctx: &vcore::Ctx) -> ! {
             "octet sequences > 65528 bytes cannot be carried by one 16-bit-length parameter: generated in 4% of cases only, judged by the same round-trip oracle",
             "the end-to-end half (QoS set through the public API seen in the peer's builtin reader) is checked by the simulation engine",
         ],
-        nontrivial_floor: ctx.pick(2_000, 50_000),
+        nontrivial_floor: ctx.pick(10_000, 500_000),
     };
     if let Some(path) = &ctx.replay {
         let v = vcore::load_replay(path);
@@ -1112,25 +1112,25 @@ pub fn run(ctx: &vcore::Ctx) -> ! {
         }
         vcore::finish(ctx, meta, report);
     }
-    let cases: u32 = ctx.pick(40_000, 1_500_000);
+    let cases: u64 = ctx.pick(60_000, 3_000_000);
     let strategy = case_strategy(4);
-    // several passes: each pass stops at its first unknown failure (after shrinking); distinct signatures found in
-    // later passes are reported too
-    let passes = 4u32;
+    // Passes: a pass ends at its first failure whose signature is neither known nor already reported in this run
+    // (it is shrunk and recorded); the next pass continues with the remaining budget, so the whole budget is
+    // explored and every distinct signature is reported.
     let mut found: Vec<String> = vec![];
-    for pass in 0..passes {
-        let per = cases / passes;
+    let mut pass = 0u32;
+    while report.stats.evaluations < cases && pass < 12 {
+        let remaining = (cases - report.stats.evaluations) as u32;
         let found_now = found.clone();
         let f = vcore::pt::run_cases(
-            per,
+            remaining,
             ctx.rng_seed(&format!("c13-pass{pass}")),
-            600,
+            400,
             &strategy,
             &mut report.stats,
             &known,
             |c| {
                 let mut o = eval(c);
-                // signatures already reported by an earlier pass do not stop this pass again
                 if let Some((sig, _)) = &o.verdict {
                     if found_now.contains(sig) {
                         o.verdict = None;
@@ -1141,9 +1141,13 @@ pub fn run(ctx: &vcore::Ctx) -> ! {
             },
             to_json,
         );
-        if let Some(f) = f {
-            found.push(f.signature.clone());
-            report.failures.push(f);
+        pass += 1;
+        match f {
+            Some(f) => {
+                found.push(f.signature.clone());
+                report.failures.push(f);
+            }
+            None => break,
         }
     }
     vcore::finish(ctx, meta, report);
